@@ -137,7 +137,13 @@ def solve_fixed_point_steffensen(
             denom[abs(denom) == 0.0] = np.finfo(x0.dtype).eps
             x = x0 - (x1 - x0) ** 2 / denom
             error = norm(x - x0)
-            if error > divergence_tol or np.isnan(error):
+            # Infinite values in x2 give an infinite denominator and so a zero update
+            # (and error) - treat as divergence rather than convergence
+            if (
+                error > divergence_tol
+                or np.isnan(error)
+                or not np.all(np.isfinite(x2))
+            ):
                 msg = (
                     f"Fixed point iteration diverged on iteration {i}. "
                     f"Last error={error:.1e}."
